@@ -39,7 +39,9 @@ Inductive stmt :=
 | StNode (d : ndef) (ins : list input)      (* w.add_node / w.add_unique_node *)
 | StPlace                                   (* delayed_binding placeholder created *)
 | StBind (ph : nat) (l : nat) (path : list nat)   (* placeholder ph bound to the port (l, path) *)
-| StDep (a b : nat).                        (* w.add_rank_dependency(node a, depends_on b) *)
+| StDep (a b : nat)                         (* w.add_rank_dependency(node a, depends_on b) *)
+| StAnchor (path l : nat)                   (* w.register_service_rank_anchor(path, node l) *)
+| StClient (path l : nat) (receive : bool). (* w.register_service_client_rank(path, kind, node l, receive) *)
 
 (* ---------------------------------------------------------------- decidable equality of keys *)
 Fixpoint list_eqb {A} (eqb : A -> A -> bool) (a b : list A) : bool :=
@@ -166,6 +168,7 @@ Definition E_SELFDEP : Z := 4.
 Definition E_INADM : Z := 6.
 Definition E_REBIND : Z := 8.
 Definition E_ALLPASSIVE : Z := 9.
+Definition E_ANCHOR : Z := 10.
 
 Inductive res (A : Type) := Ok (a : A) | Err (code : Z).
 Arguments Ok {A} a.
@@ -232,6 +235,10 @@ Definition wire_stmt (sharing : bool) (w : wst) (l : nat) (s : stmt) : res wst :
                      w_phs := w_phs w; w_binds := w_binds w; w_deps := w_deps w ++ [(ia, ib)] |}
       | _, _ => Err E_INADM
       end
+  (* the service rank contract only records (path, node) pairs; they become rank dependencies at finish
+     ([collect_svc], [apply_svc] below).  Here: the caller must already hold the port. *)
+  | StAnchor _ l' => match alookup l' (w_env w) with Some _ => Ok w | None => Err E_INADM end
+  | StClient _ l' _ => match alookup l' (w_env w) with Some _ => Ok w | None => Err E_INADM end
   end.
 
 Fixpoint wire_from (sharing : bool) (prog : list stmt) (order : list nat) (w : wst) : res wst :=
@@ -357,6 +364,61 @@ Definition active_slots (it : inst) : list nat := active_from 0 (i_ins it).
 
 Inductive outcome := Built (w : wst) (g : rgraph) (o : list nat) (es : list cedge) | Rejected (code : Z).
 
+(* ---------------------------------------------------------------- the service / adaptor rank contract *)
+(* Wiring::register_service_rank_anchor (one anchor node per path; a different node for the same path
+   throws), Wiring::register_service_client_rank (a list of (path, node, receive), NOT de-duplicated) and
+   Wiring::apply_service_rank_dependencies, run by finish before ranking: for every client in registration
+   order whose path has an anchor other than the client itself,
+       receive  -> add_rank_dependency(client, anchor)     (the client reads what the anchor hands over)
+       send     -> add_rank_dependency(anchor, client)     (the anchor reads what the client hands over).
+   The registrations are a function of the statements executed and of the ports the caller holds, so they
+   are collected from (program, order, final environment).  (An anchor conflict is therefore reported after
+   every other statement-time refusal of the same run; the code raises it at its statement.) *)
+Record svc := { s_anchors : list (nat * nat); s_clients : list (nat * nat * bool) }.
+Definition svc0 : svc := {| s_anchors := []; s_clients := [] |}.
+
+Fixpoint collect_svc (prog : list stmt) (order : list nat) (env : list (nat * nat)) (s : svc) : res svc :=
+  match order with
+  | [] => Ok s
+  | l :: r =>
+      match nth_error prog l with
+      | Some (StAnchor p l') =>
+          match alookup l' env with
+          | None => Err E_INADM
+          | Some i =>
+              match alookup p (s_anchors s) with
+              | Some j => if (i =? j)%nat then collect_svc prog r env s else Err E_ANCHOR
+              | None => collect_svc prog r env {| s_anchors := s_anchors s ++ [(p, i)]; s_clients := s_clients s |}
+              end
+          end
+      | Some (StClient p l' rc) =>
+          match alookup l' env with
+          | None => Err E_INADM
+          | Some i => collect_svc prog r env {| s_anchors := s_anchors s; s_clients := s_clients s ++ [(p, i, rc)] |}
+          end
+      | _ => collect_svc prog r env s
+      end
+  end.
+
+Definition add_dep (deps : list (nat * nat)) (pr : nat * nat) : list (nat * nat) :=
+  if existsb (pair_eqb pr) deps then deps else deps ++ [pr].
+
+Fixpoint apply_svc (anchors : list (nat * nat)) (clients : list (nat * nat * bool)) (deps : list (nat * nat)) : list (nat * nat) :=
+  match clients with
+  | [] => deps
+  | (p, c, rc) :: r =>
+      match alookup p anchors with
+      | None => apply_svc anchors r deps
+      | Some a =>
+          if (a =? c)%nat then apply_svc anchors r deps
+          else apply_svc anchors r (add_dep deps (if rc then (c, a) else (a, c)))
+      end
+  end.
+
+Definition finalize (w : wst) (s : svc) : wst :=
+  {| w_insts := w_insts w; w_tab := w_tab w; w_env := w_env w; w_phs := w_phs w; w_binds := w_binds w;
+     w_deps := apply_svc (s_anchors s) (s_clients s) (w_deps w) |}.
+
 (* Wiring::finish on a wired state (exceptions in the order the code can raise them) *)
 Definition finish (w : wst) : outcome :=
   match rgraph_of w with
@@ -376,7 +438,11 @@ Definition finish (w : wst) : outcome :=
 Definition compile (prog : list stmt) (order : list nat) : outcome :=
   match wire_prog true prog order with
   | Err c => Rejected c
-  | Ok w => finish w
+  | Ok w =>
+      match collect_svc prog order (w_env w) svc0 with
+      | Err c => Rejected c
+      | Ok s => finish (finalize w s)
+      end
   end.
 
 (* ---------------------------------------------------------------- dataflow unfolding (specification side) *)
